@@ -77,4 +77,49 @@ def addMsgV1 (isV1 : Bool) (magic : Int) (mts : Int) (timestamp : Int) : Int × 
   else
     (magic, mts)
 
+/-- generated from async_producer.go (*brokerProducer).handleSuccess (fragment starting at `msg.Offset = block.Offset + int64(i)`) -/
+def successOffset (base : Int) (i : Int) (off : Int) : Int :=
+  let off_v1 : Int := (Go.add64 base i)
+  off_v1
+
+/-- generated from async_producer.go (*brokerProducer).handleSuccess (fragment starting at `if response == nil`) -/
+def handleBlock (noResp : Bool) (noBlock : Bool) (err : Int) (isV1 : Bool) (latZero : Bool) (retryMax : Int) (verdict0 : Int) (assigned0 : Bool) (overridden0 : Bool) (vSucc : Int) (vIncomplete : Int) (vErr : Int) (vRetry : Int) (yesA : Bool) (yesO : Bool) : Int × Bool × Bool :=
+  if (noResp = true) then
+    let verdict0_v1 : Int := vSucc
+    (verdict0_v1, assigned0, overridden0)
+  else
+    if (noBlock = true) then
+      let verdict0_v2 : Int := vIncomplete
+      (verdict0_v2, assigned0, overridden0)
+    else
+      if (err = 0) then
+        if ((isV1 = true) ∧ (¬ (latZero = true))) then
+          let overridden0_v1 : Bool := yesO
+          let assigned0_v1 : Bool := yesA
+          let verdict0_v3 : Int := vSucc
+          (verdict0_v3, assigned0_v1, overridden0_v1)
+        else
+          let assigned0_v2 : Bool := yesA
+          let verdict0_v4 : Int := vSucc
+          (verdict0_v4, assigned0_v2, overridden0)
+      else
+        if (err = 46) then
+          let verdict0_v5 : Int := vSucc
+          (verdict0_v5, assigned0, overridden0)
+        else
+          if (((((((err = 2) ∨ (err = 3)) ∨ (err = 5)) ∨ (err = 6)) ∨ (err = 7)) ∨ (err = 19)) ∨ (err = 20)) then
+            if (retryMax ≤ 0) then
+              let verdict0_v6 : Int := vErr
+              (verdict0_v6, assigned0, overridden0)
+            else
+              let verdict0_v7 : Int := vRetry
+              (verdict0_v7, assigned0, overridden0)
+          else
+            if (retryMax ≤ 0) then
+              let verdict0_v8 : Int := vErr
+              (verdict0_v8, assigned0, overridden0)
+            else
+              let verdict0_v9 : Int := vErr
+              (verdict0_v9, assigned0, overridden0)
+
 end Gen.C04
